@@ -953,4 +953,43 @@ example : ((run demoBurn).burned.map (fun t => (t.id, t.amount, t.tax))) = [(1, 
     (run (demoBurn.take 6)).escrow 1 = 133 ∧ (run demoBurn).escrow 1 = 0 ∧
     (run demoBurn).applied = [(1, .executed 1 1 5, .ok)] := by decide
 
+/-- Two sends of one non-exempt sender on a fresh token, `dh` blocks apart (the `walk` op of the correspondence): the first
+    passes exactly when it is within the limit, and then the second passes exactly when — still inside the window opened
+    by the first (`dh < period`) — both together are within the limit, or — the window having run out — it alone is. -/
+theorem two_sends_window (p l a1 h0 dh a2 : Nat) (hp : p ≠ 0) :
+    limitStep (some { period := p, limit := l, exempt := [] }) none 1 a1 h0
+      = (if a1 ≤ l then some (some { start := h0, total := a1 }) else none) ∧
+    (limitStep (some { period := p, limit := l, exempt := [] }) (some { start := h0, total := a1 }) 1 a2 (h0 + dh)).isSome
+      = (if dh < p then decide (a1 + a2 ≤ l) else decide (a2 ≤ l)) := by
+  have h2 : (p == 0) = false := by simpa using hp
+  constructor
+  · simp only [limitStep, List.contains_nil, Bool.false_eq_true, if_false, h2]
+    by_cases h : a1 ≤ l
+    · have : ¬ a1 > l := by omega
+      simp [h, this]
+    · have : a1 > l := by omega
+      simp [h, this]
+  · simp only [limitStep, List.contains_nil, Bool.false_eq_true, if_false, h2]
+    have e : h0 + dh - h0 = dh := by omega
+    simp only [e]
+    by_cases hd : dh < p
+    · have : ¬ dh ≥ p := by omega
+      simp only [this, if_false, hd, if_true]
+      by_cases h : a1 + a2 ≤ l
+      · have : ¬ a1 + a2 > l := by omega
+        simp [h, this]
+      · have : a1 + a2 > l := by omega
+        simp [h, this]
+    · have : dh ≥ p := by omega
+      simp only [this, if_true, hd, if_false]
+      by_cases h : a2 ≤ l
+      · have : ¬ a2 > l := by omega
+        simp [h, this]
+      · have : a2 > l := by omega
+        simp [h, this]
+
+/-- the walk on which a 360-day year shows (replay of the seeded change C15-r3m2): one block before a year is over the window still runs -/
+example : (limitStep (some { period := 21024000, limit := 568, exempt := [] }) (some { start := 159416737, total := 447 }) 1 122 (159416737 + 21023999)).isSome = false := by
+  rw [(two_sends_window 21024000 568 447 159416737 21023999 122 (by decide)).2]; decide
+
 end Paloma.Bridge
